@@ -35,7 +35,9 @@ def run(r):
         "parser/compiler/LSP/formatter spans are not modelled beyond merge/end_to/just_start/just_end: their validity is checked functionally (tie + search) against loc_of_prefix",
         "AST spans are collected from the serde serialisation of the AST (every CodeSpan field is serialised)",
     ]
-    r.assumptions += ["input shorter than 2^32 bytes (fits32)", "no line number and no column above 65535 (fits16); beyond it line/col saturate: known finding loc-u16-saturation",
+    r.assumptions += ["input shorter than 2^32 bytes (fits32)",
+                      "no line number and no column above 65535 (fits16): PROVED for every input accepted by the size guard of `lex` (C19_guard_excludes_saturation); "
+                      "the unguarded bookkeeping saturates (C19_saturation_refuted_pre)",
                       "segments are non-empty (segs_pos)", "the index discipline `disc` of the control flow (a token starts at or after the previous token's end and not after the current position)",
                       "split-identifier arithmetic: fragments are consecutive single-char segments of the source (violated after `\\\\` escapes: finding escape-greek-split)"]
     if not r.harness(["c19"]):
@@ -125,4 +127,4 @@ def run(r):
     r.coverage["distinct_nontrivial"] = len(set(c["src"] for c in cases if len(c["spans"]) >= 3))
     r.coverage["rule"] = ("inputs: random token soup over uiua's glyphs, ASCII primitive names and a fixed list of hard pieces (escapes, combining sequences, CR/CRLF, "
                           "multi-line strings, output comments, unterminated constructs, subscripts, `?` chains), mutated lines of /repo/tests and /repo/examples, "
-                          "plus 9 huge inputs around the u16 limits; non-trivial = at least 3 reported spans")
+                          "preceded by a fixed regression corpus of 15 huge inputs around the 16-bit limits (9 that the guard must reject with the ordinary too-long error, 5 just inside the guard that must lex cleanly, 1 for the formatter's output side); non-trivial = at least 3 reported spans")
